@@ -206,6 +206,7 @@ theorem Pres.slcLoopInit (so : Loc) : Pres (slcLoopInit so) := by
   unfold Never.Src.slcLoopInit; pres_with [Pres.rngLoopInit _]
 theorem Pres.rngElem (ao : Option Loc) (cur : Int) : Pres (rngElem ao cur) := by
   unfold Never.Src.rngElem; pres_with [Pres.arrDeref _ _]
+theorem Pres.pipeArgs (l : Loc) : Pres (pipeArgs l) := by unfold Never.Src.pipeArgs; pres_core
 theorem Pres.rngCells (o : Loc) : Pres (rngCells o) := by unfold Never.Src.rngCells; pres_core
 theorem Pres.slcDimCells (so : Loc) : Pres (slcDimCells so) := by
   unfold Never.Src.slcDimCells; pres_with [Pres.rngBounds _, Pres.allocInts _]
